@@ -189,7 +189,7 @@ func runConcurrent(c *Ctx) {
 	c.OpenShards("From Verif Require Import Base.Prelude Misc.Level Lts.Trigger Harness.C15H.\nOpen Scope Z_scope.",
 		"(tcfg * script * list op) * list dcall", "mismatches c15_log c15_log_eqb", 8)
 	runs, triggered, interleaved := 0, 0, 0
-	reps := 6
+	reps := 3
 	if c.Thorough() {
 		reps = 60
 	}
@@ -206,11 +206,11 @@ func runConcurrent(c *Ctx) {
 			for rep := 0; rep < reps; rep++ {
 				r := c.R.Fork()
 				cc := sh
-				cc.G, cc.K = G, 10+r.Intn(30)
+				cc.G, cc.K = G, 10+r.Intn(20)
 				cc.progs = make([][]cwrite, G)
 				for g := 0; g < G; g++ {
 					for s := 0; s < cc.K; s++ {
-						pad := genLine(r, 6)
+						pad := genLine(r, 3)
 						line := append([]byte(fmt.Sprintf("g%d-%d:", g, s)), pad...)
 						cc.progs[g] = append(cc.progs[g], cwrite{g, s, cc.Levels[r.Intn(len(cc.Levels))], line})
 					}
